@@ -167,6 +167,51 @@ def collect_apps(cs, h, budget):
     return apps, allapps
 
 
+def f16_check(cands):
+    """F16 (EnumTape records nothing when a zero is pushed onto an EMPTY span, so the rule's minimal signature on that side
+    is empty and not edge-exact): an application (aid, p, st, before, rule, times, after) is in the class iff the rule has
+    no entry on a side X, `before` has a non-empty span on side X, and the real machine DOES reach (verified replay) the
+    tape `after` with a block of k zeros inserted next to the head on side X, for some k <= 64.  -> {aid: (side, k, cycles)}"""
+    lines, meta = [], {}
+    for app in cands:
+        aid, p, st, before, rule, times, after = app
+        try:
+            sides = {e[0] for e in parse_rule(rule)}
+            sb, bl, br = parse_tape(before)
+            sa, al, ar = parse_tape(after)
+        except (ValueError, IndexError):
+            continue
+        for X in ('L', 'R'):
+            if X in sides or not (bl if X == 'L' else br):
+                continue
+            if (al if X == 'L' else ar) and (al if X == 'L' else ar)[0][0] == 0:
+                continue
+            for k in range(1, 65):
+                l2 = ([(0, k)] + al) if X == 'L' else al
+                r2 = ([(0, k)] + ar) if X == 'R' else ar
+                cid = f'{aid}~{X}{k}'
+                lines.append(f'{cid}|replay|{p}|{st}|{before}|{st}|{fmt_tape(sa, l2, r2)}|20000')
+                meta[cid] = (aid, X, k)
+    if not lines:
+        return {}
+    o = core.run_bbm(lines)
+    out = {}
+    for cid, a in o.items():
+        if a.startswith('reached') and cid in meta:
+            aid, X, k = meta[cid]
+            out.setdefault(aid, (X, k, int(a.split(':')[1])))
+    return out
+
+
+def f16_text(app, hit):
+    aid, p, st, before, rule, times, after = app
+    X, k, c = hit
+    side = 'left' if X == 'L' else 'right'
+    return (f'F16 class: "{p}" state {st}: application {before} --{rule} x{times}--> {after} is not a run of the machine: the rule '
+            f'has no entry on the {side} and was applied where the {side} span is not empty; the real machine reaches (verified '
+            f'replay, {c} cycles) the same tape with a block of {k} zeros next to the head on the {side}')
+
+
 def f14_text(flag):
     aid, app, k, tk, tk1, cprev, what, decisive = flag
     return (f'F14 class: "{app[1]}" state {app[2]}: application {app[3]} --{app[4]} x{app[5]}--> {app[6]}: its application no. {k + 1} '
@@ -228,6 +273,19 @@ def run(rep, tier, seed):
             nf14 += 1
             if nf14 <= 4:
                 rep.known_finding(f14_text(fl))
+    # F16: applications refuted by the whole replay (or flagged above) that are explained by zeros written next to the head
+    byaid = {a[0]: a for a in allapps}
+    suspects = [byaid[f[0]] for f in fails if f[0] in byaid] + [fl[1] for fl in flags]
+    hits16 = {aid: h16 for aid, h16 in f16_check(suspects).items() if aid.split('.')[0] not in diverging}
+    for k16, (aid, h16) in enumerate(sorted(hits16.items())):
+        if k16 < 3:
+            rep.known_finding(f16_text(byaid[aid], h16))
+    if hits16:
+        kf16 = [f for f in core.known_findings()['open'] if f['id'] == 'F16'][0]
+        rep.known_finding(f'F16 class ({kf16["site"]}): {len(hits16)} rule applications in this run; the faithful model applies them identically')
+    rep.coverage['known_F16_applications'] = len(hits16)
+    fails = [f for f in fails if f[0] not in hits16]
+    flags = [fl for fl in flags if fl[0] not in hits16]
     f14_aids = {fl[0] for fl in flags if fl[0].split('.')[0] not in diverging}
     # the whole-application replay of such an application fails too (part b): same finding, reported once
     fails = [f for f in fails if f[0] not in f14_aids]
